@@ -953,7 +953,15 @@ class StrategyFactory(abc.ABC, Generic[CombinatorialClassType]):
         pass
 
     def __eq__(self, other: object) -> bool:
-        return self.__class__ == other.__class__ and self.__dict__ == other.__dict__
+        if not isinstance(other, StrategyFactory):
+            return NotImplemented
+
+        def settings(strategy: StrategyFactory) -> dict:
+            # an instance created from a subscripted alias, e.g. Factory[A](),
+            # carries the alias in __orig_class__; it is not a setting
+            return {k: v for k, v in vars(strategy).items() if k != "__orig_class__"}
+
+        return self.__class__ == other.__class__ and settings(self) == settings(other)
 
     def __hash__(self) -> int:
         """
